@@ -27,6 +27,7 @@
 #include <tbox/base/log.h>
 #include <tbox/base/assert.h>
 #include <tbox/base/defines.h>
+#include <tbox/base/verif_point.h>
 
 #include "fd_event.h"
 #include "stat.h"
@@ -68,6 +69,7 @@ bool CommonLoop::isRunningLockless() const
 
 void CommonLoop::runThisBeforeLoop()
 {
+    TBOX_VERIF_POINT("CommonLoop.before_loop");
     int event_fd = CreateEventFd();
 
     FdEvent *sp_read_event = newFdEvent("CommonLoop::sp_run_read_event_");
@@ -81,6 +83,7 @@ void CommonLoop::runThisBeforeLoop()
     sp_read_event->setCallback(std::bind(&CommonLoop::handleRunInLoopFunc, this));
     sp_read_event->enable();
 
+    TBOX_VERIF_POINT("CommonLoop.before_loop_lock");
     std::lock_guard<std::recursive_mutex> g(lock_);
     loop_thread_id_ = std::this_thread::get_id();
     run_event_fd_ = event_fd;
@@ -94,6 +97,7 @@ void CommonLoop::runThisBeforeLoop()
 
 void CommonLoop::runThisAfterLoop()
 {
+    TBOX_VERIF_POINT("CommonLoop.after_loop");
     std::lock_guard<std::recursive_mutex> g(lock_);
     cleanupDeferredTasks();
 
